@@ -42,6 +42,11 @@ CHECKS = {
             "expect_probes": ["update_last_key", "update_first_key", "update_multiline_value", "add_to_doc_without_metadata", "has_metadata_twice_same_engine",
                               "update_after_update_same_engine", "block_ends_at_eof_no_newline", "dstring_realloc_moved"],
             "sim_time": "not meaningful: no clock is read on these paths"},
+    "C13": {"engine": "incl", "variants": ["A", "B"], "quick": 12000, "thorough": 400000, "quick_s": 70, "thorough_s": 560,
+            "real": ["src/transclude.c", "src/file.c (scan_file, path helpers)", "metadata detection in src/mmd.c", "DString", "glibc stdio over fopencookie"],
+            "stub": ["file system under /sim (in-memory, POSIX path normalisation, PATH_MAX/NAME_MAX)", "realpath()", "realloc placement", "DString starting capacity (H1)", "stdio read chunk size"],
+            "expect_probes": ["guard_hit", "depth_ge_3", "insert_caused_realloc_move", "open_fail", "read_error", "file_changed_between_opens", "directory_in_place_of_file"],
+            "sim_time": "not meaningful: no clock on these paths; liveness is counted in fopen calls, delivered bytes and executed basic blocks"},
 }
 
 DEFAULT_SEED = {"quick": 20261001, "thorough": 20261002}
